@@ -252,8 +252,12 @@ func (g *GeneratorBase) TestFile(file *ast.File) bool {
 	if g.commonFlags.FileName == "" {
 		return true
 	}
-	filename := g.pkg.Fset.File(file.Pos()).Name()
-	if filepath.Base(filename) == g.commonFlags.FileName {
+	tf := g.pkg.Fset.File(file.Pos())
+	if tf == nil {
+		//a file without a package clause has no position: it is not the requested file
+		return false
+	}
+	if filepath.Base(tf.Name()) == g.commonFlags.FileName {
 		return true
 	}
 	return false
